@@ -1,6 +1,9 @@
 package scen
 
-import "fmt"
+import (
+	"fmt"
+	"strings"
+)
 
 // Shape is one point of the signature space (C08).
 type Shape struct {
@@ -54,6 +57,7 @@ func GenShapes(shapes []Shape, id, pkgRel string) *Scenario {
 	}
 	b.PkgNameMode = []string{"", "differs", "alias-collide", "dot", ""}[h%5]
 	var methods []*Method
+	needFailure := false
 	var argIface []*Method // arg-style shapes whose style comes from an interface-level notation
 	for i, sh := range shapes {
 		sp, dp := "", ""
@@ -87,6 +91,19 @@ func GenShapes(shapes []Shape, id, pkgRel string) *Scenario {
 		if sh.DstPtr {
 			m.Dst.Type = "*" + m.Dst.Type
 		}
+		// operand, receiver and error types spelled through a type alias (type X = Y) mean the aliased type
+		if i%5 == 2 {
+			b.Func(fmt.Sprintf("type AD%d = %s\n", i, dst.Ref()), false, "")
+			m.Dst.Type = strings.Replace(m.Dst.Type, dst.Ref(), fmt.Sprintf("AD%d", i), 1)
+		}
+		if i%5 == 4 && (!sh.Recv || sh.SrcImp) {
+			b.Func(fmt.Sprintf("type AS%d = %s\n", i, src.Ref()), false, "")
+			m.Src.Type = strings.Replace(m.Src.Type, src.Ref(), fmt.Sprintf("AS%d", i), 1)
+		}
+		if sh.Err && i%3 == 1 {
+			m.ErrType = "Failure"
+			needFailure = true
+		}
 		if sh.Named {
 			m.Src.Name, m.Dst.Name = "in", "out"
 		}
@@ -104,6 +121,9 @@ func GenShapes(shapes []Shape, id, pkgRel string) *Scenario {
 		} else {
 			methods = append(methods, m)
 		}
+	}
+	if needFailure {
+		b.Func("type Failure = error\n", false, "")
 	}
 	if len(argIface) > 0 {
 		// an interface that sorts BEFORE "Convergen" and sets :style arg for all its methods
